@@ -14,7 +14,7 @@ E ns=<pfx cps>~<uri cps>;... k=s code=<cps>  |  E ns=... k=q uri=<cps> p=<cps> l
    answer: model=<class>,<code cps>,<raisedInside> spec=<ok|bad>
 X cls=<PyClass> site=<file:function> n=<number of tokens> syms=<cps>,<cps>,...   trigger predicate of the
                                known escapes (EPV.C03Esc.trigger)
-   answer: inK=<finding id | ->
+   answer: inK=<finding id>#<row index> | inK=-
 T                              dump of the trigger table: id;cls;site;sym,sym,..;minToks|...
 -/
 import EPV.Proto
@@ -146,8 +146,8 @@ def answerE (fs : List (String × String)) : String :=
 
 def answerX (fs : List (String × String)) : String :=
   let syms := (((field fs "syms").splitOn ",").filter (· ≠ "")).map decodeStr
-  match EPV.C03Esc.trigger (field fs "cls") (field fs "site") syms ((nat? (field fs "n")).getD 0) with
-  | some id => "inK=" ++ id
+  match EPV.C03Esc.triggerIdx (field fs "cls") (field fs "site") syms ((nat? (field fs "n")).getD 0) with
+  | some i => s!"inK={((EPV.C03Esc.rows.drop i).head?.map (·.id)).getD "-"}#{i}"
   | none => "inK=-"
 
 def answerT : String :=
